@@ -191,6 +191,15 @@ impl Controller for Ctl {
         self.cv.notify_all();
     }
 
+    fn on_event(&self, name: &'static str) {
+        // the IterDrop hook fires in the iterator's cleanup before it takes the mutex: a pause
+        // point like the others (whatever the cleanup looked at before, a version can be
+        // installed before it releases its view)
+        if name == "IterDrop" {
+            self.sched_point("iter_drop");
+        }
+    }
+
     fn woke(&self, _which: &'static str) {
         let t = thread_label();
         let mut st = self.st.lock();
@@ -394,6 +403,18 @@ pub fn scenarios(rng: &mut StdRng, quick: bool) -> Vec<Scenario> {
                 memtable: 4000,
             });
         }
+    }
+    // an iterator suspended at the very beginning of its clean-up (its view still held) while
+    // flushes, a compaction and a deletion pass go by: the view must be given back all the same
+    for script in ["flush_compact", "delete_flush_compact"] {
+        out.push(Scenario {
+            name: format!("Scan@iter_drop/{}", script),
+            victim: Victim::Scan,
+            point: "iter_drop".to_string(),
+            nth: 1,
+            script: script.to_string(),
+            memtable: 4000,
+        });
     }
     // a get that FAILS (one transient read fault) after a newer version was installed while it was
     // suspended: it holds the last reference to the superseded version and must give it back
@@ -1487,7 +1508,7 @@ pub fn run_scenario(sc: &Scenario, seed: u64, run_no: u64) -> SchedOutcome {
         // nobody reads any more: after one more flush (whose deletion pass also reclaims what an
         // earlier pass had to leave to a racing reader) exactly ONE version is linked and only
         // its tables are on disk
-        if sc.script == "flush_compact_readfault" || sc.script == "flush_compact" {
+        if sc.script == "flush_compact_readfault" || sc.script == "flush_compact" || sc.point == "iter_drop" {
             emit_quiet(&env, &db, &fs, &sink);
         }
     }
